@@ -232,6 +232,9 @@ class Scheduler:
         self.preempt_p = float(cfg.get("preempt_p", 0.0))
         self.preempt_files = tuple(cfg.get("preempt_files", ("udp_socket.py",)))
         self.cost_p = float(cfg.get("cost_p", 0.0))
+        self.s_wall = choices.stream("clock.wall")
+        self.wall_jump_p = float(cfg.get("wall_jump_p", 0.0))
+        self.wall_jump_max = float(cfg.get("wall_jump_max", 86400.0))
         self.cost_max = float(cfg.get("cost_max", 0.002))
         self.monitors: List[Callable[[], None]] = []
         self.preemptions = 0
@@ -338,6 +341,9 @@ class Scheduler:
             self._main_sem.acquire()
             if self.cost_p and self.s_cost.chance(self.cost_p):
                 clock.inject(int(self.s_cost.uniform(0.0, self.cost_max) * 1e9))
+            if self.wall_jump_p and self.s_wall.chance(self.wall_jump_p):
+                clock.wall_offset_ns += int(self.s_wall.uniform(-self.wall_jump_max, self.wall_jump_max) * 1e9)
+                self.result.fault("wall_clock_jump")
             for m in self.monitors:
                 m()
 
